@@ -164,6 +164,7 @@ def main():
     ap.add_argument("--seed", type=int, default=1)
     ap.add_argument("--out", default=os.path.join(VERIF, "seeded", "mutation_sweep.json"))
     ap.add_argument("--files", default="")
+    ap.add_argument("--exclude", default="", help="comma-separated earlier sweep json files whose mutants are skipped")
     a = ap.parse_args()
     rng = random.Random(a.seed)
     props_of = anchors()
@@ -174,6 +175,19 @@ def main():
     for f in files:
         ms = mutants_of(os.path.join("/repo", f), f)
         allm += ms
+    seen = set()
+    for ex in [x for x in a.exclude.split(",") if x]:
+        d = json.load(open(ex))
+        for r in d["survivors"] + d["killed"] + d["tests_fail"]:
+            seen.add((r["file"], r["line"], r["kind"], r["after"]))
+    if seen:
+        keep = []
+        for m in allm:
+            line = open(os.path.join("/repo", m[0])).read().split("\n")[m[1] - 1]
+            after = (line[:m[2]] + m[5] + line[m[3]:]).strip()
+            if (m[0], m[1], m[6], after) not in seen:
+                keep.append(m)
+        allm = keep
     rng.shuffle(allm)
     todo = allm[: a.n]
     print("candidate mutants: %d, sampled: %d, files: %d" % (len(allm), len(todo), len(files)))
